@@ -693,8 +693,8 @@ Section InterpReplay.
   Proof.
     unfold custom_handler.
     assert (H : replays (
-                 t0 <- get_ts ;;
                  c <- cleanup LF crun ;;
+                 t0 <- get_ts ;;
                  match c, r with
                  | Some e, Err (XInvalid m) => _ <- (if internal_msg m then mark_dirty else ret tt) ;; throw e
                  | Some e, _ => throw e
@@ -702,8 +702,8 @@ Section InterpReplay.
                  | None, Err (XInvalid m) => match failed t0 with Some _ => throw (XInvalid m) | None => ret None end
                  | None, Err e => throw e
                  end)).
-    { apply replays_bind; [apply replays_get_ts|intros t0].
-      apply replays_bind; [apply replays_cleanup|intros c].
+    { apply replays_bind; [apply replays_cleanup|intros c].
+      apply replays_bind; [apply replays_get_ts|intros t0].
       destruct c as [e|]; destruct r as [v|e']; try apply replays_throw; try apply replays_ret.
       - destruct e'; try apply replays_throw.
         apply replays_bind; [destruct (internal_msg m); [apply replays_mark_dirty|apply replays_ret]|intros; apply replays_throw].
@@ -729,12 +729,12 @@ Section InterpReplay.
     intros NG Hg Hc. destruct (not_good_cases _ _ NG) as [E|[m [E Hi]]]; rewrite E in *.
     - cbn in Hg. contradiction.
     - unfold custom_handler in *. unfold bind at 1. unfold bind at 1 in Hg. unfold bind at 1 in Hc.
-      cbn [get_ts res post w] in *. unfold bind at 1. unfold bind at 1 in Hg. unfold bind at 1 in Hc.
       match goal with |- context [cleanup LF crun ?s0] => set (s1 := s0) in * end.
       destruct (res (cleanup LF crun s1)) as [[e|]|e] eqn:Ec.
-      + rewrite Hi. unfold bind at 1. cbn. rewrite !orb_true_r. reflexivity.
+      + unfold bind at 1. cbn [get_ts res post w]. rewrite Hi. unfold bind at 1. cbn. rewrite !orb_true_r. reflexivity.
       + (* a skip raised by rapid itself that is not swallowed stays an internal invalid: not good *)
-        destruct (failed (ts s1)); cbn in Hg, Hc; [congruence|congruence].
+        unfold bind at 1 in Hg. unfold bind at 1 in Hc. cbn [get_ts res post w] in Hg, Hc.
+        destruct (failed (ts (post (cleanup LF crun s1)))); cbn in Hg, Hc; [congruence|congruence].
       + apply cleanup_err in Ec. subst e. cbn in Hg. contradiction.
   Qed.
 
